@@ -488,9 +488,12 @@ def run_campaign(build, targets, tier, rng, sample, timeout, workers, progress=N
                            "stdout": r["out"][-600:].decode(errors="replace"), "stderr": r["err"][-300:].decode(errors="replace"),
                            "outputs_differing": sorted(diff) + ([] if r["out"] == t.ref["out"] else ["<stdout>"])}
 
+    t0 = time.time()
     with ThreadPoolExecutor(workers) as ex:
         for ix, r in ex.map(one, range(len(jobs))):
             record(ix, r)
+            if os.environ.get("VERIF_PROGRESS") and ix % 5000 == 4999:
+                sys.stderr.write("c17: %d/%d cases, %.0fs\n" % (ix + 1, len(jobs), time.time() - t0))
     # A timeout may be the machine, not the compiler: confirm each alone with a long limit.
     hung = [ix for ix, e in enumerate(events) if e["timeout"]]
     confirm_to = max(20.0, timeout * 5)
